@@ -362,13 +362,14 @@ func preludeForKind(body string, extra string, kind string) string {
 	if strings.Contains(body, "str_lt") {
 		sb.WriteString(preludeStr)
 	}
-	if strings.Contains(body, "sq_") || strings.Contains(body, "SeqU") || strings.Contains(extra, "sq_") {
+	hasSeq := strings.Contains(body, "sq_") || strings.Contains(body, "SeqU") || strings.Contains(extra, "sq_") || strings.Contains(extra, "SeqU")
+	if hasSeq {
 		sb.WriteString(preludeSeq)
 	}
 	if strings.Contains(body, "rankf") || strings.Contains(extra, "rankf") {
 		sb.WriteString(preludeRank)
 	}
-	if kind == "lemma" {
+	if kind == "lemma" && hasSeq {
 		sb.WriteString(preludeSeqRev)
 	}
 	return sb.String()
